@@ -1247,6 +1247,13 @@ def cl_id(ex, args, kw, st):
     if isinstance(v, SArr) and v.store is not None:
         st.fact(v.store.tok >= 1)
         return v.store.tok
+    if isinstance(v, SArr):
+        # a freshly computed array: some identity, nothing known about it (so it can never be
+        # *proved* to be one of the caller's arrays)
+        if getattr(v, '_tok', None) is None:
+            v._tok = fresh_int('arrid_fresh')
+        st.fact(v._tok >= 1)
+        return v._tok
     raise Unsupported('id_ of a value without identity')
 
 
@@ -1256,7 +1263,7 @@ def _record(ex, args, kw, st):
 
 
 TABLE['record_'] = _record
-for _n in ('apsum', 'aperr', 'aparea', 'modelimg'):
+for _n in ('apsum', 'aperr', 'aparea', 'modelimg', 'apvalues', 'bkgest'):
     TABLE[_n + '_'] = cl_uf(_n)
 
 
